@@ -340,6 +340,11 @@ pub fn run(ctx: &mut Ctx) {
             // pools and the unified analyze_pcap path on a subset
             if t % 5 == 0 && !ctx.miri() {
                 pool_and_pcap(ctx, &mut r, t, &trace, &cfg, &sub);
+                if let Ok(k) = std::env::var("HV_C15_STRESS") {
+                    for _ in 0..k.parse::<u32>().unwrap_or(0) {
+                        pool_and_pcap(ctx, &mut r, t, &trace, &cfg, &sub);
+                    }
+                }
             }
         }
         if ctx.want_sample() {
@@ -426,12 +431,24 @@ fn pool_and_pcap(ctx: &mut Ctx, r: &mut Rng, t: u64, trace: &[TFrame], cfg: &Cfg
                     if a.init_pool(tx.clone()).is_err() {
                         break;
                     }
+                    // (seeded yields / short sleeps / spins at a part of the hook points: more schedules)
+                    pool::reset_log(r.next_u64(), *r.pick(&[0u64, 2, 5, 11]));
                     let _ = a.analyze_pcap(&path, tx, None);
+                    // analyze_pcap has returned: every frame of the capture has been offered to
+                    // the pool.  The capture is done, logically, when every frame that was
+                    // accepted (DispatchQueued events) has reached the worker's processed point
+                    // (results are sent before that point).  No verdict from wall time: the
+                    // 30 s watchdog only makes the round inconclusive.
+                    let count_site = |s: pool::Site| pool::log().events.lock().map(|e| e.iter().filter(|x| x.site == s).count() as u64).unwrap_or(0);
+                    let queued = count_site(pool::Site::DispatchQueued);
+                    let (offered, refused) = (count_site(pool::Site::DispatchEnter), count_site(pool::Site::DispatchDropped));
                     let mut got_tcp: Vec<String> = Vec::new();
                     let start = std::time::Instant::now();
                     let mut closed = false;
+                    let mut stalled = false;
                     loop {
-                        match rx.recv_timeout(Duration::from_millis(200)) {
+                        let done = pool::log().processed.load(std::sync::atomic::Ordering::SeqCst) >= queued;
+                        match rx.recv_timeout(Duration::from_millis(if done { 0 } else { 20 })) {
                             Ok(x) => {
                                 let l = crate::canon::tcp(&x);
                                 if !l.is_empty() {
@@ -443,19 +460,29 @@ fn pool_and_pcap(ctx: &mut Ctx, r: &mut Rng, t: u64, trace: &[TFrame], cfg: &Cfg
                                 break;
                             }
                             Err(std::sync::mpsc::RecvTimeoutError::Timeout) => {
-                                // the analyzer keeps its pool (and a sender) alive: quiet for 1 s = done
-                                if start.elapsed() > Duration::from_secs(30) || (a.worker_pool().map(|p| p.stats().workers.iter().all(|w| w.queue_size == 0)).unwrap_or(true) && start.elapsed() > Duration::from_millis(1200)) {
+                                if done {
+                                    break;
+                                }
+                                if start.elapsed() > Duration::from_secs(30) {
+                                    stalled = true;
                                     break;
                                 }
                             }
                         }
                     }
-                    let _ = closed;
+                    let processed_at_end = pool::log().processed.load(std::sync::atomic::Ordering::SeqCst);
+                    let pool_stats = a.stats().map(|st| format!("{st:?}")).unwrap_or_default();
+                    let _ = pool::take_events();
+                    if stalled {
+                        ctx.inconclusive("parallel analyze_pcap: accepted frames did not all reach the processed point within the 30 s watchdog");
+                        break;
+                    }
                     got_tcp.sort();
                     ctx.judge(got_tcp == want_tcp, &[], "parallel TCP analyzer with a filter, reused for another capture, differs from the unfiltered analyzer on the admitted sub-trace", || {
                         let extra: Vec<&String> = got_tcp.iter().filter(|x| !want_tcp.contains(x)).take(3).collect();
                         let missing: Vec<&String> = want_tcp.iter().filter(|x| !got_tcp.contains(x)).take(3).collect();
-                        json!({"trace": t, "filter": cfg.describe(), "capture_number": round + 1, "expected_results": want_tcp.len(), "actual_results": got_tcp.len(), "not_expected": extra, "missing": missing})
+                        json!({"trace": t, "filter": cfg.describe(), "capture_number": round + 1, "expected_results": want_tcp.len(), "actual_results": got_tcp.len(), "not_expected": extra, "missing": missing,
+                               "frames_in_capture": eth.len(), "hook_log": {"offered_to_dispatch": offered, "queued": queued, "refused": refused, "processed": processed_at_end}, "pool_stats": pool_stats, "result_channel_closed": closed})
                     });
                     ctx.bucket(&format!("tcp/analyze_pcap-parallel/capture{}", round + 1));
                 }
